@@ -468,3 +468,516 @@ Proof.
   rewrite decode_tail_encode. cbn [bind]. rewrite Hroot. cbn [w_root]. rewrite str_eqb_refl. cbn [negb].
   subst w. rewrite post_init_same by exact Hnd. reflexivity.
 Qed.
+
+(* ================================================================================================= *)
+(* E. the files of the outputs                                                                        *)
+
+(* the persisted dict of a full array: external key -> value *)
+Definition vals_of (a : nd str) (mask : list bool) : result (list (list nat * val)) :=
+  mapM (fun e => do v <- sub_value a mask e; Ok (e, v)) (all_indices (ext_of mask (shp a))).
+
+(* the storage object init_store builds for an output of a finished run *)
+Definition item_of (persist : bool) (d : out_desc) : result sitem :=
+  match d with
+  | OSingle o _ => Ok (SPath o)
+  | OMapped o FileArrayK mask a => Ok (SFileArr o (shp a) mask)
+  | OMapped o _ mask a =>
+      if persist then do vals <- vals_of a mask; Ok (SDictArr o (shp a) mask vals)
+      else Ok (SDictArr o (shp a) mask [])
+  end.
+
+Lemma out_files_owner legacy persist i d fs lv :
+  out_files legacy persist i d = Ok (fs, lv) -> forall q c, In (q, c) fs -> path_owner q = Some (od_name d).
+Proof.
+  destruct d as [o k mask a|o v]; cbn [out_files od_name].
+  - destruct (mapM _ _) as [vals|]; [|discriminate]. cbn [bind].
+    destruct k; intros [= <- <-] q c Hin.
+    + destruct Hin as [[= <- <-]|Hin]; [reflexivity|]. apply in_map_iff in Hin as [ev [[= <- <-] _]]. reflexivity.
+    + destruct persist; [|contradiction]. destruct Hin as [[= <- <-]|[[= <- <-]|[]]]; reflexivity.
+    + destruct persist; [|contradiction]. destruct Hin as [[= <- <-]|[[= <- <-]|[]]]; reflexivity.
+  - intros [= <- <-] q c [[= <- <-]|[]]. reflexivity.
+Qed.
+
+Lemma fs_get_none_owner f p : (forall q c, In (q, c) f -> path_owner q <> path_owner p) -> fs_get f p = None.
+Proof.
+  intros H. rewrite <- (app_nil_r f). rewrite fs_get_skip by exact H. reflexivity.
+Qed.
+
+Lemma flat_files_lookup legacy persist : forall (l : list (nat * out_desc)) fl i d p,
+  mapM (fun nd => out_files legacy persist (fst nd) (snd nd)) l = Ok fl ->
+  NoDup (map (fun nd => od_name (snd nd)) l) -> In (i, d) l -> path_owner p = Some (od_name d) ->
+  exists fs lv, out_files legacy persist i d = Ok (fs, lv) /\ fs_get (flat_map fst fl) p = fs_get fs p.
+Proof.
+  induction l as [|[i0 d0] l IH]; intros fl i d p Hfl Hnd Hin Hp; [contradiction|].
+  cbn [mapM fst snd] in Hfl. destruct (out_files legacy persist i0 d0) as [[fs0 lv0]|] eqn:E0; [|discriminate].
+  cbn [bind] in Hfl. destruct (mapM _ l) as [fl'|] eqn:El; [|discriminate]. cbn [bind] in Hfl. injection Hfl as <-.
+  cbn [map snd] in Hnd. inversion Hnd as [|? ? Hn Hl]; subst. cbn [flat_map fst].
+  destruct Hin as [[= -> ->]|Hin].
+  - exists fs0, lv0. split; [exact E0|]. rewrite fs_get_app.
+    destruct (fs_get fs0 p) eqn:G; [reflexivity|].
+    apply fs_get_none_owner. intros q c Hq. rewrite Hp. intros Eq.
+    apply in_flat_map in Hq as [[fs1 lv1] [Hfl1 Hq]]. cbn [fst] in Hq.
+    destruct (In_nth_error _ _ Hfl1) as [n Hn1].
+    assert (exists nd, nth_error l n = Some nd /\ out_files legacy persist (fst nd) (snd nd) = Ok (fs1, lv1)) as [nd [Hnd1 Hof]].
+    { clear -El Hn1. revert fl' n El Hn1. induction l as [|x l IH]; intros fl' n El Hn1; cbn in El.
+      - injection El as <-. destruct n; discriminate.
+      - destruct (out_files legacy persist (fst x) (snd x)) eqn:Ex; [|discriminate]. cbn in El.
+        destruct (mapM _ l) eqn:El'; [|discriminate]. cbn in El. injection El as <-.
+        destruct n as [|n]; cbn in Hn1.
+        + injection Hn1 as ->. exists x. split; [reflexivity|exact Ex].
+        + destruct (IH _ _ eq_refl Hn1) as [nd [H1 H2]]. exists nd. split; assumption. }
+    rewrite (out_files_owner _ _ _ _ _ _ Hof q c Hq) in Eq. injection Eq as Eq.
+    apply Hn. rewrite <- Eq. apply nth_error_In in Hnd1.
+    apply (in_map (fun nd => od_name (snd nd))) in Hnd1. exact Hnd1.
+  - destruct (IH fl' i d p eq_refl Hl Hin Hp) as [fs [lv [Hof Hget]]].
+    exists fs, lv. split; [exact Hof|]. rewrite fs_get_skip; [exact Hget|].
+    intros q c Hq. rewrite (out_files_owner _ _ _ _ _ _ E0 q c Hq), Hp. intros [= Eq].
+    apply Hn. rewrite Eq. apply (in_map (fun nd => od_name (snd nd))) in Hin. exact Hin.
+Qed.
+
+Lemma in_combine_seq {A} (l : list A) x : In x l -> exists i, In (i, x) (combine (seq 0 (length l)) l).
+Proof.
+  intros H. apply In_nth_error in H as [n Hn]. exists n.
+  apply (nth_error_In _ n). 
+  assert (G : forall (l : list A) k n x, nth_error l n = Some x -> nth_error (combine (seq k (length l)) l) n = Some (k + n, x)).
+  { clear. induction l as [|y l IH]; intros k n x H; [destruct n; discriminate|].
+    destruct n as [|n]; cbn in *.
+    - injection H as ->. now rewrite Nat.add_0_r.
+    - rewrite (IH (S k) n x H). f_equal. f_equal. lia. }
+  now apply (G l 0 n x).
+Qed.
+
+Lemma map_snd_combine_seq {A} (l : list A) k : map snd (combine (seq k (length l)) l) = l.
+Proof. revert k. induction l as [|x l IH]; intros k; cbn; [reflexivity|]. now rewrite IH. Qed.
+
+Lemma ext_int_length {A} (mask : list bool) : forall (l : list A),
+  length mask = length l -> length mask = length (ext_of mask l) + length (int_of mask l).
+Proof.
+  induction mask as [|[|] m IH]; intros [|x l] H; cbn in *; try discriminate; auto;
+    injection H as H; rewrite (IH l H) at 1; lia.
+Qed.
+
+Lemma fs_get_In f p c : fs_get f p = Some c -> In (p, c) f.
+Proof.
+  induction f as [|[q d] f IH]; [discriminate|]. cbn [fs_get].
+  destruct (path_eqb p q) eqn:E.
+  - apply path_eqb_eq in E. subst q. intros [= ->]. now left.
+  - intros H. right. now apply IH.
+Qed.
+
+Lemma NoDup_names_eq descs d d' :
+  NoDup (map od_name descs) -> In d descs -> In d' descs -> od_name d = od_name d' -> d = d'.
+Proof.
+  induction descs as [|x l IH]; intros Hnd Hd Hd' E; [contradiction|].
+  cbn in Hnd. inversion Hnd as [|? ? Hx Hl]; subst.
+  destruct Hd as [->|Hd], Hd' as [->|Hd']; auto.
+  - exfalso. apply Hx. rewrite E. now apply in_map.
+  - exfalso. apply Hx. rewrite <- E. now apply in_map.
+Qed.
+
+Section RunWorld.
+  Variables (root : str) (live : list (nat * list (list nat * val))).
+  Variables (ri : run_info) (inputs : list (str * pyv)) (dflt : pyv).
+  Variables (persist : bool) (descs : list out_desc).
+  Variable fl : list (files * list (nat * list (list nat * val))).
+  Hypothesis Hfl : mapM (fun nd => out_files false persist (fst nd) (snd nd)) (combine (seq 0 (length descs)) descs) = Ok fl.
+  Hypothesis Hnames : NoDup (map od_name descs).
+
+  Let W := {| w_root := root; w_files := base_files ri inputs dflt ++ flat_map fst fl; w_live := live |}.
+
+  Lemma world_lookup d p : In d descs -> path_owner p = Some (od_name d) ->
+    exists i fs lv, out_files false persist i d = Ok (fs, lv) /\ fs_get (w_files W) p = fs_get fs p.
+  Proof.
+    intros Hd Hp. destruct (in_combine_seq descs d Hd) as [i Hi].
+    destruct (flat_files_lookup false persist _ fl i d p Hfl) as [fs [lv [Hof Hget]]]; auto.
+    - rewrite <- (map_map snd od_name). now rewrite map_snd_combine_seq.
+    - exists i, fs, lv. split; [exact Hof|]. cbn [w_files W]. rewrite fs_get_skip; [exact Hget|].
+      intros q c Hq. rewrite Hp. unfold base_files in Hq. destruct Hq as [[= <- <-]|Hq]; [discriminate|].
+      apply in_app_or in Hq as [Hq|[[= <- <-]|[]]]; [|discriminate].
+      apply in_map_iff in Hq as [kv [[= <- <-] _]]. discriminate.
+  Qed.
+
+  Lemma world_files_owner q c : In (q, c) (w_files W) ->
+    path_owner q = None \/ exists i d fs lv, In d descs /\ out_files false persist i d = Ok (fs, lv) /\ In (q, c) fs.
+  Proof.
+    cbn [w_files W]. intros H. apply in_app_or in H as [H|H].
+    - left. unfold base_files in H. destruct H as [[= <- <-]|H]; [reflexivity|].
+      apply in_app_or in H as [H|[[= <- <-]|[]]]; [|reflexivity].
+      apply in_map_iff in H as [kv [[= <- <-] _]]. reflexivity.
+    - right. apply in_flat_map in H as [[fs lv] [Hfs Hq]]. cbn [fst] in Hq.
+      destruct (In_nth_error _ _ Hfs) as [n Hn].
+      assert (G : forall (l : list (nat * out_desc)) fl n, mapM (fun nd => out_files false persist (fst nd) (snd nd)) l = Ok fl ->
+                  nth_error fl n = Some (fs, lv) -> exists nd, In nd l /\ out_files false persist (fst nd) (snd nd) = Ok (fs, lv)).
+      { clear. induction l as [|x l IH]; intros fl n El Hn; cbn in El.
+        - injection El as <-. destruct n; discriminate.
+        - destruct (out_files false persist (fst x) (snd x)) eqn:Ex; [|discriminate]. cbn in El.
+          destruct (mapM _ l) eqn:El'; [|discriminate]. cbn in El. injection El as <-.
+          destruct n as [|n]; cbn in Hn.
+          + injection Hn as ->. exists x. split; [now left|exact Ex].
+          + destruct (IH _ _ eq_refl Hn) as [nd [H1 H2]]. exists nd. split; [now right|assumption]. }
+      destruct (G _ _ _ Hfl Hn) as [[i d] [Hin Hof]]. cbn [fst snd] in Hof.
+      exists i, d, fs, lv. repeat split; try assumption.
+      apply (in_map snd) in Hin. rewrite map_snd_combine_seq in Hin. exact Hin.
+  Qed.
+
+  (* single outputs *)
+  Lemma single_file o v : In (OSingle o v) descs -> fs_get (w_files W) (PSingle o) = Some (Pickled (PVal v)).
+  Proof.
+    intros Hd. destruct (world_lookup (OSingle o v) (PSingle o) Hd eq_refl) as [i [fs [lv [Hof Hget]]]].
+    cbn in Hof. injection Hof as <- <-. rewrite Hget. cbn. now rewrite str_eqb_refl.
+  Qed.
+
+  (* element files of a FileArray output *)
+  Lemma elem_files o mask a : In (OMapped o FileArrayK mask a) descs ->
+    fs_get (w_files W) (PArrDir o) = Some Dir
+    /\ forall e, in_bounds (ext_of mask (shp a)) e = true ->
+         exists v, sub_value a mask e = Ok v
+                   /\ fs_get (w_files W) (PElem o (ravel (ext_of mask (shp a)) e)) = Some (Pickled (PVal v)).
+  Proof.
+    intros Hd. split.
+    - destruct (world_lookup _ (PArrDir o) Hd eq_refl) as [i [fs [lv [Hof Hget]]]].
+      cbn [out_files] in Hof. cbv zeta in Hof. destruct (mapM _ (all_indices _)) as [vals|]; [|discriminate]. cbn [bind] in Hof.
+      injection Hof as <- <-. rewrite Hget. cbn. now rewrite str_eqb_refl.
+    - intros e He.
+      destruct (world_lookup _ (PElem o (ravel (ext_of mask (shp a)) e)) Hd eq_refl) as [i [fs [lv [Hof Hget]]]].
+      cbn [out_files] in Hof. cbv zeta in Hof. destruct (mapM _ (all_indices _)) as [vals|] eqn:Ev; [|discriminate]. cbn [bind] in Hof.
+      injection Hof as <- <-. rewrite Hget. cbn [fs_get path_eqb]. clear Hget.
+      set (ext := ext_of mask (shp a)) in *.
+      assert (G : forall l vals, mapM (fun e => do v <- sub_value a mask e; Ok (e, v)) l = Ok vals ->
+                  (forall e', In e' l -> in_bounds ext e' = true) -> In e l ->
+                  exists v, sub_value a mask e = Ok v /\
+                    fs_get (map (fun ev : list nat * val => (PElem o (ravel ext (fst ev)), Pickled (PVal (snd ev)))) vals)
+                           (PElem o (ravel ext e)) = Some (Pickled (PVal v))).
+      { clear Ev vals. induction l as [|e0 l IH]; intros vals Hv Hb Hin; [contradiction|].
+        cbn in Hv. destruct (sub_value a mask e0) as [v0|] eqn:E0; [|discriminate]. cbn in Hv.
+        destruct (mapM _ l) as [vals'|] eqn:El; [|discriminate]. cbn in Hv. injection Hv as <-.
+        cbn [map fs_get fst snd path_eqb]. rewrite str_eqb_refl. cbn [andb].
+        destruct (ravel ext e =? ravel ext e0) eqn:Er.
+        - apply Nat.eqb_eq in Er.
+          assert (e = e0).
+          { rewrite <- (unravel_ravel ext e He), <- (unravel_ravel ext e0) by (apply Hb; now left). now rewrite Er. }
+          subst e0. eauto.
+        - destruct Hin as [->|Hin]; [now rewrite Nat.eqb_refl in Er|].
+          apply (IH vals' eq_refl); [intros; apply Hb; now right|exact Hin]. }
+      apply (G _ _ Ev); [apply all_indices_in_bounds|now apply in_bounds_all_indices].
+  Qed.
+
+  (* the persisted dict of a dict-kind output *)
+  Lemma dict_file o k mask a : In (OMapped o k mask a) descs -> k <> FileArrayK -> persist = true ->
+    exists vals, vals_of a mask = Ok vals
+                 /\ fs_get (w_files W) (PArrDir o) = Some Dir
+                 /\ fs_get (w_files W) (PDictFile o) = Some (Pickled (PDict vals)).
+  Proof.
+    intros Hd Hk Hp.
+    destruct (world_lookup _ (PArrDir o) Hd eq_refl) as [i [fs [lv [Hof Hget]]]].
+    destruct (world_lookup _ (PDictFile o) Hd eq_refl) as [i' [fs' [lv' [Hof' Hget']]]].
+    cbn [out_files] in Hof, Hof'. cbv zeta in Hof, Hof'. unfold vals_of.
+    destruct (mapM _ (all_indices _)) as [vals|]; [|discriminate]. cbn [bind] in Hof, Hof'. exists vals. split; [reflexivity|].
+    rewrite Hp in Hof, Hof'. destruct k; try contradiction; injection Hof as <- <-; injection Hof' as <- <-;
+      rewrite Hget, Hget'; cbn; rewrite str_eqb_refl; auto.
+  Qed.
+
+  (* without persist_memory a dict-kind output leaves no folder *)
+  Lemma dict_absent o k mask a : In (OMapped o k mask a) descs -> k <> FileArrayK -> persist = false ->
+    dir_exists W o = false.
+  Proof.
+    intros Hd Hk Hp. unfold dir_exists.
+    destruct (existsb _ (w_files W)) eqn:E; [|reflexivity]. exfalso.
+    apply existsb_exists in E as [[q c] [Hin Hq]]. cbn [fst] in Hq.
+    assert (Ho : path_owner q = Some o /\ forall o', q <> PSingle o').
+    { destruct q; try discriminate; apply str_eqb_eq in Hq; subst; split; try reflexivity; intros; discriminate. }
+    destruct Ho as [Ho Hns].
+    destruct (world_files_owner q c Hin) as [Hnone|[i [d [fs [lv [Hd' [Hof Hqin]]]]]]]; [congruence|].
+    pose proof (out_files_owner _ _ _ _ _ _ Hof q c Hqin) as Hown. rewrite Ho in Hown. injection Hown as Hown.
+    assert (d = OMapped o k mask a) by (apply (NoDup_names_eq descs); auto).
+    subst d. cbn [out_files] in Hof. cbv zeta in Hof. destruct (mapM _ (all_indices _)); [|discriminate]. cbn [bind] in Hof. rewrite Hp in Hof.
+    destruct k; try contradiction; injection Hof as <- <-; contradiction.
+  Qed.
+
+  (* _init_arrays on the folder of the run: the storage objects described by item_of, no change to the folder *)
+  Lemma init_array_ok o k mask a : In (OMapped o k mask a) descs -> nd_wf a = true -> length mask = length (shp a) ->
+    exists it, item_of persist (OMapped o k mask a) = Ok it /\ init_array W k o (shp a) mask = Ok (it, W).
+  Proof.
+    intros Hd Hwf Hm. unfold init_array.
+    rewrite <- (ext_int_length mask (shp a) Hm), Nat.eqb_refl. cbn [negb].
+    destruct k eqn:Ek.
+    - exists (SFileArr o (shp a) mask). split; [reflexivity|].
+      destruct (elem_files o mask a Hd) as [Hdir _]. unfold mkdir. now rewrite Hdir.
+    - destruct (Bool.bool_dec persist true) as [Ep|Ep]; [|apply Bool.not_true_is_false in Ep].
+      + destruct (dict_file o DictK mask a Hd ltac:(discriminate) Ep) as [vals [Hv [Hdir Hfile]]].
+        exists (SDictArr o (shp a) mask vals). cbn [item_of]. rewrite Ep, Hv. split; [reflexivity|].
+        assert (Hex : dir_exists W o = true).
+        { unfold dir_exists. apply existsb_exists. exists (PArrDir o, Dir). split.
+          - now apply fs_get_In.
+          - cbn. apply str_eqb_refl. }
+        rewrite Hex. unfold unpickle. rewrite Hfile. reflexivity.
+      + exists (SDictArr o (shp a) mask []). cbn [item_of]. rewrite Ep. split; [reflexivity|].
+        rewrite (dict_absent o DictK mask a Hd ltac:(discriminate) Ep). reflexivity.
+    - destruct (Bool.bool_dec persist true) as [Ep|Ep]; [|apply Bool.not_true_is_false in Ep].
+      + destruct (dict_file o SharedDictK mask a Hd ltac:(discriminate) Ep) as [vals [Hv [Hdir Hfile]]].
+        exists (SDictArr o (shp a) mask vals). cbn [item_of]. rewrite Ep, Hv. split; [reflexivity|].
+        assert (Hex : dir_exists W o = true).
+        { unfold dir_exists. apply existsb_exists. exists (PArrDir o, Dir). split.
+          - now apply fs_get_In.
+          - cbn. apply str_eqb_refl. }
+        rewrite Hex. unfold unpickle. rewrite Hfile. reflexivity.
+      + exists (SDictArr o (shp a) mask []). cbn [item_of]. rewrite Ep. split; [reflexivity|].
+        rewrite (dict_absent o SharedDictK mask a Hd ltac:(discriminate) Ep). reflexivity.
+  Qed.
+End RunWorld.
+
+(* ================================================================================================= *)
+(* E'. RunInfo.init_store on the folder of a run                                                      *)
+
+Lemma dict_get_set {V} (d : list (str * V)) k v k' :
+  dict_get (dict_set d k v) k' = if str_eqb k' k then Some v else dict_get d k'.
+Proof.
+  induction d as [|[k0 v0] d IH]; cbn.
+  - reflexivity.
+  - destruct (str_eqb k k0) eqn:E; cbn.
+    + apply str_eqb_eq in E. subst k0. destruct (str_eqb k' k); reflexivity.
+    + rewrite IH. destruct (str_eqb k' k0) eqn:E2; [|reflexivity].
+      apply str_eqb_eq in E2. subst k0. destruct (str_eqb k' k) eqn:E3; [|reflexivity].
+      apply str_eqb_eq in E3. subst k'. now rewrite str_eqb_refl in E.
+Qed.
+
+Lemma fold_dict_set_combine {V} (f : str -> V) : forall names st o,
+  dict_get (fold_left (fun st na => dict_set st (fst na) (snd na)) (combine names (map f names)) st) o
+  = if mem_str o names then Some (f o) else dict_get st o.
+Proof.
+  induction names as [|n names IH]; intros st o; cbn [map combine fold_left mem_str]; [reflexivity|].
+  rewrite IH. cbn [fst snd]. rewrite dict_get_set.
+  destruct (mem_str o names) eqn:Em.
+  - now rewrite orb_true_r.
+  - rewrite orb_false_r. destruct (str_eqb o n) eqn:E; [|reflexivity]. apply str_eqb_eq in E. now subst.
+Qed.
+
+Lemma fold_spath_get : forall names (st : store_t) o,
+  dict_get (fold_left (fun st o => match dict_get st o with Some _ => st | None => st ++ [(o, SPath o)] end) names st) o
+  = match dict_get st o with Some it => Some it | None => if mem_str o names then Some (SPath o) else None end.
+Proof.
+  induction names as [|n names IH]; intros st o; cbn [fold_left mem_str].
+  - destruct (dict_get st o); reflexivity.
+  - rewrite IH. destruct (dict_get st n) eqn:En.
+    + destruct (dict_get st o) eqn:Eo; [reflexivity|].
+      destruct (str_eqb o n) eqn:E; [|reflexivity]. apply str_eqb_eq in E. subst. congruence.
+    + rewrite dict_get_app. destruct (dict_get st o) eqn:Eo; [reflexivity|]. cbn.
+      destruct (str_eqb o n) eqn:E; cbn; [|reflexivity]. apply str_eqb_eq in E. now subst.
+Qed.
+
+Definition store_step (ri : run_info) (acc : result (store_t * world)) (spec : str) : result (store_t * world) :=
+  do sw <- acc;
+  do ms <- parse spec;
+  do key <- get_or (name_mapping_get (ri_shapes ri) (map aname (outs ms))) KeyError;
+  match ins ms with
+  | [] => Ok sw
+  | _ :: _ =>
+      do sh <- get_or (odict_get (ri_shapes ri) key) KeyError;
+      do mask <- get_or (odict_get (ri_shape_masks ri) key) KeyError;
+      do kind <- storage_class (ri_storage ri) key;
+      do aw <- fold_left (fun acc2 o => do aw <- acc2;
+                                       do iw <- init_array (snd aw) kind o sh mask;
+                                       Ok (fst aw ++ [fst iw], snd iw))
+                         (at_least_tuple key) (Ok ([], snd sw));
+      Ok (fold_left (fun st na => dict_set st (fst na) (snd na)) (combine (map aname (outs ms)) (fst aw)) (fst sw),
+          snd aw)
+  end.
+
+Lemma init_store_unfold w ri :
+  init_store w ri = do sw <- fold_left (store_step ri) (ri_mapspecs ri) (Ok ([], w));
+                    Ok (fold_left (fun st o => match dict_get st o with Some _ => st | None => st ++ [(o, SPath o)] end)
+                                  (ri_all_output_names ri) (fst sw), snd sw).
+Proof. reflexivity. Qed.
+
+Lemma str_in_dec (x : str) l : {In x l} + {~ In x l}.
+Proof. apply in_dec. apply list_eq_dec. apply ascii_dec. Qed.
+
+Section Reload.
+  Variables (ver root : str) (live : list (nat * list (list nat * val))).
+  Variables (ri : run_info) (inputs : list (str * pyv)) (dflt : pyv).
+  Variables (persist : bool) (descs : list out_desc).
+  Variable fl : list (files * list (nat * list (list nat * val))).
+  Hypothesis Hfl : mapM (fun nd => out_files false persist (fst nd) (snd nd)) (combine (seq 0 (length descs)) descs) = Ok fl.
+  Hypothesis Hnames : NoDup (map od_name descs).
+
+  Let W := {| w_root := root; w_files := base_files ri inputs dflt ++ flat_map fst fl; w_live := live |}.
+
+  (* what the recorded MapSpec strings, shapes, masks and storage must say about the outputs of the run *)
+  Definition spec_consistent (x : str) : Prop :=
+    exists ms, parse x = Ok ms /\
+      exists key, name_mapping_get (ri_shapes ri) (map aname (outs ms)) = Some key /\
+      (ins ms = [] \/
+       exists sh mask kind,
+         odict_get (ri_shapes ri) key = Some sh /\ odict_get (ri_shape_masks ri) key = Some mask /\
+         storage_class (ri_storage ri) key = Ok kind /\
+         at_least_tuple key = map aname (outs ms) /\
+         Forall (fun o => exists a, In (OMapped o kind mask a) descs /\ shp a = sh /\ nd_wf a = true
+                                    /\ length mask = length sh) (map aname (outs ms))).
+
+  Definition has_item (o : str) (it : sitem) : Prop :=
+    exists d, In d descs /\ od_name d = o /\ item_of persist d = Ok it.
+
+  Lemma init_arrays_fold kind sh mask : forall names acc,
+    Forall (fun o => exists a, In (OMapped o kind mask a) descs /\ shp a = sh /\ nd_wf a = true /\ length mask = length sh) names ->
+    exists items,
+      fold_left (fun acc2 o => do aw <- acc2; do iw <- init_array (snd aw) kind o sh mask; Ok (fst aw ++ [fst iw], snd iw))
+                names (Ok (acc, W)) = Ok (acc ++ items, W)
+      /\ Forall2 has_item names items.
+  Proof.
+    induction names as [|o names IH]; intros acc Hall.
+    - exists []. split; [now rewrite app_nil_r|constructor].
+    - inversion Hall as [|? ? [a [Hd [Hsh [Hwf Hm]]]] Hall']; subst.
+      destruct (init_array_ok root live ri inputs dflt persist descs fl Hfl Hnames o kind mask a Hd Hwf Hm) as [it [Hit Hinit]].
+      fold W in Hinit. cbn [fold_left bind snd fst]. rewrite Hinit. cbn [bind fst snd].
+      destruct (IH (acc ++ [it]) Hall') as [items [Hfold Hitems]].
+      exists (it :: items). split.
+      + rewrite Hfold. now rewrite <- app_assoc.
+      + constructor; [|exact Hitems]. exists (OMapped o kind mask a). auto.
+  Qed.
+
+  Lemma store_step_ok x st : spec_consistent x ->
+    exists st', store_step ri (Ok (st, W)) x = Ok (st', W)
+      /\ forall o, (In o (mapped_outs x) -> exists it, has_item o it /\ dict_get st' o = Some it)
+                   /\ (~ In o (mapped_outs x) -> dict_get st' o = dict_get st o).
+  Proof.
+    intros [ms [Hparse [key [Hkey Hcase]]]].
+    unfold store_step, mapped_outs. rewrite Hparse. cbn [bind]. rewrite Hkey. cbn [get_or bind].
+    destruct Hcase as [Hins|[sh [mask [kind [Hsh [Hmk [Hkind [Hat Hall]]]]]]]].
+    - rewrite Hins. exists st. split; [reflexivity|]. intros o. split; [contradiction|reflexivity].
+    - destruct (ins ms) as [|i0 irest] eqn:Eins.
+      + exists st. split; [reflexivity|]. intros o. split; [contradiction|reflexivity].
+      + rewrite Hsh, Hmk, Hkind. cbn [get_or bind snd fst]. rewrite Hat.
+        destruct (init_arrays_fold kind sh mask (map aname (outs ms)) [] Hall) as [items [Hfold Hitems]].
+        rewrite Hfold. cbn [bind fst snd app].
+        eexists. split; [reflexivity|].
+        (* the items, as a function of the name *)
+        set (names := map aname (outs ms)) in *.
+        assert (Hfun : exists f : str -> sitem, items = map f names /\ forall o, In o names -> has_item o (f o)).
+        { clear -Hitems Hnames. induction Hitems as [|o it names items Hit _ IH].
+          - exists (fun o => SPath o). split; [reflexivity|contradiction].
+          - destruct IH as [f [Hf Hall]].
+            exists (fun o' => if str_eqb o' o then it else f o'). split.
+            + cbn [map]. rewrite str_eqb_refl. f_equal. rewrite Hf. apply map_ext_in.
+              intros o' Ho'. destruct (str_eqb o' o) eqn:E; [|reflexivity].
+              apply str_eqb_eq in E. subst o'.
+              destruct (Hall o Ho') as [d1 [Hd1 [Hn1 Hi1]]]. destruct Hit as [d2 [Hd2 [Hn2 Hi2]]].
+              assert (d1 = d2) by (apply (NoDup_names_eq descs); auto; congruence). subst d2. congruence.
+            + intros o' [<-|Ho']; [now rewrite str_eqb_refl|].
+              destruct (str_eqb o' o) eqn:E; [apply str_eqb_eq in E; now subst|]. now apply Hall. }
+        destruct Hfun as [f [-> Hf]].
+        intros o. rewrite fold_dict_set_combine. split.
+        * intros Ho. exists (f o). split; [now apply Hf|]. apply mem_str_In in Ho. now rewrite Ho.
+        * intros Ho. apply mem_str_false in Ho. now rewrite Ho.
+  Qed.
+
+  Lemma store_fold_ok : forall specs st, Forall spec_consistent specs ->
+    exists st', fold_left (store_step ri) specs (Ok (st, W)) = Ok (st', W)
+      /\ forall o, (In o (flat_map mapped_outs specs) -> exists it, has_item o it /\ dict_get st' o = Some it)
+                   /\ (~ In o (flat_map mapped_outs specs) -> dict_get st' o = dict_get st o).
+  Proof.
+    induction specs as [|x specs IH]; intros st Hall.
+    - exists st. split; [reflexivity|]. intros o. split; [contradiction|reflexivity].
+    - inversion Hall as [|? ? Hx Hall']; subst.
+      destruct (store_step_ok x st Hx) as [st1 [Hstep H1]].
+      destruct (IH st1 Hall') as [st' [Hfold H2]].
+      exists st'. cbn [fold_left]. rewrite Hstep. split; [exact Hfold|].
+      intros o. cbn [flat_map]. split.
+      + intros Hin. destruct (str_in_dec o (flat_map mapped_outs specs)) as [Hs|Hs].
+        * now apply (proj1 (H2 o)).
+        * rewrite (proj2 (H2 o) Hs). apply in_app_or in Hin as [Hin|Hin]; [|contradiction].
+          now apply (proj1 (H1 o)).
+      + intros Hnin. rewrite (proj2 (H2 o)) by (intros Hc; apply Hnin; apply in_or_app; now right).
+        apply (proj2 (H1 o)). intros Hc. apply Hnin. apply in_or_app. now left.
+  Qed.
+
+  Hypothesis Hspecs : Forall spec_consistent (ri_mapspecs ri).
+
+  Lemma init_store_ok :
+    exists store, init_store W ri = Ok (store, W)
+      /\ (forall o, In o (flat_map mapped_outs (ri_mapspecs ri)) -> exists it, has_item o it /\ dict_get store o = Some it)
+      /\ (forall o, ~ In o (flat_map mapped_outs (ri_mapspecs ri)) -> In o (ri_all_output_names ri) ->
+                    dict_get store o = Some (SPath o)).
+  Proof.
+    destruct (store_fold_ok (ri_mapspecs ri) [] Hspecs) as [st' [Hfold H]].
+    eexists. split; [rewrite init_store_unfold; unfold store_t in *; rewrite Hfold; cbn [bind fst snd]; reflexivity|]. split.
+    - intros o Ho. destruct (proj1 (H o) Ho) as [it [Hit Hget]]. exists it. split; [exact Hit|].
+      rewrite fold_spath_get. now rewrite Hget.
+    - intros o Ho Hin. rewrite fold_spath_get. rewrite (proj2 (H o) Ho). cbn [dict_get].
+      apply mem_str_In in Hin. now rewrite Hin.
+  Qed.
+
+  (* ---------- load_outputs on the folder of the run ---------- *)
+  Hypothesis Hwf : wf_run_info ri = true.
+  Hypothesis Hroot : ri_run_folder ri = root.
+  Hypothesis Hinputs : ri_input_names ri = map fst inputs.
+  Hypothesis Hslash : forallb (fun n => negb (mem_char "/"%char n)) (ri_input_names ri) = true.
+
+  Lemma load_outputs_head o :
+    exists store, load_outputs ver W o
+      = match dict_get store o with
+        | None => Err KeyError
+        | Some (SPath o') =>
+            match fs_get (w_files W) (PSingle o') with
+            | Some Dir | None => Ok (None, W)
+            | Some _ => do v <- unpickle W (PSingle o'); Ok (Some v, W)
+            end
+        | Some (SFileArr o' sh mask) => do a <- file_to_array W o' sh mask; Ok (Some (PVal (VA a)), W)
+        | Some (SDictArr _ sh mask d) => do a <- dict_to_array d sh mask; Ok (Some (PVal (VA a)), W)
+        end
+      /\ (forall o, In o (flat_map mapped_outs (ri_mapspecs ri)) -> exists it, has_item o it /\ dict_get store o = Some it)
+      /\ (forall o, ~ In o (flat_map mapped_outs (ri_mapspecs ri)) -> In o (ri_all_output_names ri) ->
+                    dict_get store o = Some (SPath o)).
+  Proof.
+    destruct init_store_ok as [store [Hinit [H1 H2]]]. exists store. split; [|split; assumption].
+    unfold load_outputs.
+    pose proof (runinfo_load_ok ver root live ri inputs dflt (flat_map fst fl) Hwf Hroot Hinputs Hslash) as Hload.
+    cbv zeta in Hload. fold W in Hload. rewrite Hload. cbn [bind fst snd li_info]. rewrite Hinit. cbn [bind fst snd].
+    reflexivity.
+  Qed.
+
+  (* the three cases of the theorem *)
+  Theorem reload_single o v :
+    In (OSingle o v) descs -> In o (ri_all_output_names ri) -> ~ In o (flat_map mapped_outs (ri_mapspecs ri)) ->
+    load_outputs ver W o = Ok (Some (PVal v), W).
+  Proof.
+    intros Hd Hin Hnm. destruct (load_outputs_head o) as [store [-> [_ H2]]].
+    rewrite (H2 o Hnm Hin).
+    pose proof (single_file root live ri inputs dflt persist descs fl Hfl Hnames o v Hd) as Hs. fold W in Hs.
+    rewrite Hs. unfold unpickle. rewrite Hs. reflexivity.
+  Qed.
+
+  Theorem reload_mapped o k mask a :
+    In (OMapped o k mask a) descs -> In o (flat_map mapped_outs (ri_mapspecs ri)) ->
+    nd_wf a = true -> length mask = length (shp a) ->
+    k = FileArrayK \/ persist = true ->
+    load_outputs ver W o = Ok (Some (PVal (VA a)), W).
+  Proof.
+    intros Hd Hin Hwfa Hm Hk. destruct (load_outputs_head o) as [store [-> [H1 _]]].
+    destruct (H1 o Hin) as [it [[d [Hd' [Hn Hit]]] Hget]]. rewrite Hget.
+    assert (d = OMapped o k mask a) by (apply (NoDup_names_eq descs); auto). subst d.
+    destruct k.
+    - cbn in Hit. injection Hit as <-.
+      destruct (elem_files root live ri inputs dflt persist descs fl Hfl Hnames o mask a Hd) as [_ Hfiles].
+      fold W in Hfiles. rewrite (file_to_array_ok a mask Hwfa Hm W o Hfiles). reflexivity.
+    - destruct Hk as [Hk|Hk]; [discriminate|]. cbn [item_of] in Hit. rewrite Hk in Hit.
+      destruct (vals_of a mask) as [vals|] eqn:Ev; [|discriminate]. cbn [bind] in Hit. injection Hit as <-.
+      rewrite (dict_to_array_ok a mask Hwfa Hm vals Ev). reflexivity.
+    - destruct Hk as [Hk|Hk]; [discriminate|]. cbn [item_of] in Hit. rewrite Hk in Hit.
+      destruct (vals_of a mask) as [vals|] eqn:Ev; [|discriminate]. cbn [bind] in Hit. injection Hit as <-.
+      rewrite (dict_to_array_ok a mask Hwfa Hm vals Ev). reflexivity.
+  Qed.
+  (* a dict-kind output that was not persisted reloads as a fully masked array (nothing is demanded of it) *)
+  Theorem reload_unpersisted o k mask a :
+    In (OMapped o k mask a) descs -> In o (flat_map mapped_outs (ri_mapspecs ri)) ->
+    k <> FileArrayK -> persist = false ->
+    load_outputs ver W o
+    = Ok (Some (PVal (VA {| shp := shp a; dat := map (fun _ => masked_str) (all_indices (shp a)) |})), W).
+  Proof.
+    intros Hd Hin Hk Hp. destruct (load_outputs_head o) as [store [-> [H1 _]]].
+    destruct (H1 o Hin) as [it [[d [Hd' [Hn Hit]]] Hget]]. rewrite Hget.
+    assert (d = OMapped o k mask a) by (apply (NoDup_names_eq descs); auto). subst d.
+    destruct k; try contradiction; cbn [item_of] in Hit; rewrite Hp in Hit; injection Hit as <-;
+      unfold dict_to_array; cbn [forallb negb];
+      rewrite (mapM_ok_pointwise _ (fun _ => masked_str)) by reflexivity; reflexivity.
+  Qed.
+End Reload.
